@@ -173,8 +173,9 @@ type world struct {
 	log   *evLog
 	start time.Time
 
-	recv *recvSide
-	gone map[string]bool // source files removed behind the sender's back before they were delivered
+	recv           *recvSide
+	gone           map[string]bool        // source files removed behind the sender's back before they were delivered
+	sentLogAtStart map[int]map[string]int // sender generation -> records in the sent log on disk when it started
 	// receiver generation counter (restarts)
 	recvGen int
 
@@ -417,8 +418,36 @@ func renameOf(name string) string { return "renamed/" + strings.ReplaceAll(name,
 
 // ---- sender construction
 
+// sentLogLines: "name|hash" of every record in the sender's sent log as it is on disk
+func (w *world) sentLogLines() map[string]int {
+	out := map[string]int{}
+	_ = filepath.Walk(w.sentLogDir, func(p string, info os.FileInfo, err error) error {
+		if err != nil || info.IsDir() {
+			return nil
+		}
+		b, err := os.ReadFile(p)
+		if err != nil {
+			return nil
+		}
+		for _, ln := range strings.Split(string(b), "\n") {
+			f := strings.Split(ln, ":")
+			if len(f) >= 4 {
+				out[f[0]+"|"+f[1]]++
+			}
+		}
+		return nil
+	})
+	return out
+}
+
 func (w *world) startSender() *sender {
 	w.sndGen++
+	w.regMu.Lock()
+	if w.sentLogAtStart == nil {
+		w.sentLogAtStart = map[int]map[string]int{}
+	}
+	w.sentLogAtStart[w.sndGen] = w.sentLogLines()
+	w.regMu.Unlock()
 	s := &sender{w: w, gen: w.sndGen, stop: make(chan bool, 2), done: make(chan bool, 2)}
 	c := w.conf
 	s.store = &store.Local{Root: w.outDir, MinAge: c.MinAge}
